@@ -711,10 +711,10 @@ pub fn refresh(
 ) -> Result<(), Error> {
     verify(msk, usk)?;
 
-    let usk_id = take(&mut usk.id);
-    let new_id = msk.tsk.refresh_id(rng, usk_id)?;
+    // The USK is only modified once every fallible step succeeded.
+    let new_id = msk.tsk.refresh_id(rng, usk.id.clone())?;
 
-    let usk_rights = take(&mut usk.secrets);
+    let usk_rights = usk.secrets.clone();
     let new_rights = if keep_old_rights {
         refresh_coordinate_keys(msk, usk_rights)
     } else {
